@@ -417,6 +417,7 @@ static int execMain(void)
 /* implemented in drv_belt_steps.c */
 int stepsMain(void);
 int overlapMain(void);
+int msgsMain(void);
 
 int main(int argc, char** argv)
 {
@@ -428,5 +429,6 @@ int main(int argc, char** argv)
 	else if (strcmp(mode, "exec") == 0) return execMain();
 	else if (strcmp(mode, "steps") == 0) return stepsMain();
 	else if (strcmp(mode, "overlap") == 0) return overlapMain();
+	else if (strcmp(mode, "msgs") == 0) return msgsMain();
 	return 0;
 }
